@@ -1,6 +1,9 @@
 """C15 – throttle: real `haiway.throttle` vs `hwmodel throttle`, exact virtual time.
 
-case   = `<limit|-> <period> <gap>:<duration>:<outcome>*`            (see lean/Driver/Throttle.lean)
+case   = `<limit|-> <period> <gap>:<duration>:<outcome>[:a|b]*`     (see lean/Driver/Throttle.lean)
+         all instants in ticks of 0.25 s; period f<q> = float q*0.25 | i<n> = int seconds | t<n> = timedelta(seconds=n)
+         | t<d>,<s>,<ms> = timedelta(days=d, seconds=s, milliseconds=ms); 4th call field: caller created after (a, default)
+         or before (b) the timers due at its arrival instant fire
 output = `<start>/<caller outcome>/<finish>` per call + ` order=<call indices in start order>`
          followed (implementation only, stripped by `canon`) by ` args=<bit per call>`.
 """
@@ -16,11 +19,14 @@ PID = "C15"
 LEAN_COMPONENT = "throttle"
 PROPS_MODULE = "Haiway.Props.C15"
 ANCHORS = ["src/haiway/helpers/throttling.py"]
-RULE = ("case = limit x period (float / int / timedelta) x arrival pattern (gap to the previous arrival, function duration, "
-        "function outcome value/Exception/BaseException per call), callers at one instant created in index order. "
-        "quick: 4000 patterns of <= 12 calls (bursts, steady streams, gaps at period-1/period/period+1, mixtures), limits 1-4, "
-        "periods 1-10. thorough: every gap vector over 0..period+1 for <= 6 calls, periods 2 and 3, limits 1-4 (durations, "
-        "outcomes and period form rotating) + 200000 random patterns. "
+RULE = ("case = limit x period (float incl. fractions / int / timedelta incl. sub-second parts and whole days) x arrival pattern "
+        "(gap to the previous arrival, function duration, function outcome value/Exception/BaseException per call, and whether "
+        "the caller is created before or after the timers due at its arrival instant fire, i.e. both tie orders against a "
+        "sleeper waking at that instant); callers at one instant created in index order; time in exact quarter-second ticks. "
+        "quick: 4000 patterns of <= 12 calls (bursts, steady streams, gaps at period-1/period/period+1 ticks, arrivals exactly "
+        "at the instant a waiting call's delay ends, mixtures), limits 1-4. thorough: every gap vector over 0..period+1 for "
+        "<= 6 calls, periods 2 and 3 ticks, limits 1-4, both tie orders (durations, outcomes and period form rotating) + "
+        "200000 random patterns. "
         "monitor: sliding half-open windows over the observed starts, start order = arrival order, start on arrival when "
         "nothing forces a wait and otherwise at the first instant nothing forces a wait, every call ran once and its caller "
         "got the function's own value / exception object. "
@@ -29,7 +35,7 @@ RULE = ("case = limit x period (float / int / timedelta) x arrival pattern (gap 
 TRUSTED = ["asyncio.Lock FIFO hand-over and asyncio.sleep/call_later as exercised through harness/vloop.py",
            "harness/comp_throttle.py run_real + monitor"]
 ASSUMPTIONS = ["arrival order = task creation order for callers arriving at the same virtual instant",
-               "callers are not cancelled while waiting for their turn", "time in integer ticks (exact in floating point)"]
+               "callers are not cancelled while waiting for their turn", "time in quarter-second ticks (multiples of 0.25 s, exact in floating point)"]
 
 
 class Boom(Exception):
@@ -40,10 +46,27 @@ class BaseBoom(BaseException):
     pass
 
 
-def setup():
-    from harness.helpers_mpclock import use_real_clock_in_multiprocessing
+TICK = 0.25  # seconds per tick
 
-    use_real_clock_in_multiprocessing()
+
+def parse_period(tok: str):
+    """-> (form, python-constructor args, period in ticks)"""
+    form, body = tok[0], tok[1:]
+    if form == "f":
+        q = int(body)
+        return ("f", q, q)
+    if form == "i":
+        n = int(body)
+        return ("i", n, 4 * n)
+    if form == "t":
+        parts = [int(x) for x in body.split(",")]
+        if len(parts) == 1:
+            parts = [0, parts[0], 0]
+        d, sec, ms = parts
+        if ms % 250 or min(parts) < 0:
+            raise ValueError(tok)
+        return ("t", (d, sec, ms), (d * 86400 + sec) * 4 + ms // 250)
+    raise ValueError(tok)
 
 
 def parse(case: str):
@@ -56,21 +79,35 @@ def parse(case: str):
         limit = 1 if bare else int(lim)
         if limit < 0:
             return None
-        if bare:
-            form, period = "f", 1
-        else:
-            form, period = per[0], int(per[1:])
-            if form not in "fit" or period < 0:
-                return None
+        form, pargs, period = ("i", 1, 4) if bare else parse_period(per)
+        if period < 0:
+            return None
         calls = []
         for tok in toks[2:]:
-            g, d, o = tok.split(":")
-            if o not in ("v", "e", "b") or int(g) < 0 or int(d) < 0:
+            parts = tok.split(":")
+            if len(parts) == 3:
+                parts.append("a")
+            g, d, o, mode = parts
+            if o not in ("v", "e", "b") or mode not in ("a", "b") or int(g) < 0 or int(d) < 0:
                 return None
-            calls.append((int(g), int(d), o))
+            calls.append((int(g), int(d), o, mode))
     except (ValueError, IndexError):
         return None
-    return bare, limit, form, period, calls
+    return bare, limit, (form, pargs), period, calls
+
+
+def advance_before(loop, t: float) -> None:
+    """Move the virtual clock to `t`, firing every timer due strictly before `t` but none of those due
+    at `t` itself: what the harness does next happens *before* the sleepers of that instant wake."""
+    clock = vloop.CLOCK
+    while True:
+        loop.quiesce()
+        loop._drop_cancelled()
+        if loop._scheduled and loop._scheduled[0]._when < t:
+            clock.now = max(clock.now, loop._scheduled[0]._when)
+        else:
+            clock.now = max(clock.now, t)
+            return
 
 
 SENT_K = object()
@@ -82,13 +119,9 @@ def run_real(case: str) -> str:
     p = parse(case)
     if p is None:
         return "bad-case"
-    bare, limit, form, period, calls = p
+    bare, limit, (form, pargs), period, calls = p
     clock = vloop.CLOCK
-    # integer-valued clock at the start of every case: `subprocess` waits in the check process go
-    # through the patched `time.sleep` and can leave a load-dependent fraction on the clock, which
-    # would turn exact tick arithmetic into rounding noise
-    clock.now = 1000.0
-    loop = vloop.new_loop()
+    loop = vloop.new_loop()   # also resets the clock to an integer instant
     try:
         t0 = clock.now
         n = len(calls)
@@ -98,13 +131,16 @@ def run_real(case: str) -> str:
         argbits = ["-"] * n
         done: dict[int, tuple[str, float]] = {}
 
+        def ticks() -> float:
+            return (clock.now - t0) / TICK
+
         async def fn(i, *, key=None):
             order.append(i)
-            starts.setdefault(i, clock.now - t0)
+            starts.setdefault(i, ticks())
             argbits[i] = "1" if key is SENT_K else "0"
-            _g, dur, out = calls[i]
+            dur, out = calls[i][1], calls[i][2]
             if dur:
-                await asyncio.sleep(dur)
+                await asyncio.sleep(dur * TICK)
             if out == "v":
                 return ("val", i)
             exc = (Boom if out == "e" else BaseBoom)(i)
@@ -114,7 +150,12 @@ def run_real(case: str) -> str:
         if bare:
             wrapped = throttle(fn)
         else:
-            per = float(period) if form == "f" else period if form == "i" else timedelta(seconds=period)
+            if form == "f":
+                per = pargs * TICK
+            elif form == "i":
+                per = pargs
+            else:
+                per = timedelta(days=pargs[0], seconds=pargs[1], milliseconds=pargs[2])
             wrapped = throttle(limit=limit, period=per)(fn)
 
         async def caller(i):
@@ -124,13 +165,16 @@ def run_real(case: str) -> str:
             except BaseException as exc:  # noqa: BLE001
                 k = next((j for j, e in raised.items() if e is exc), None)
                 o = f"x{k}" if k is not None else f"foreign:{type(exc).__name__}"
-            done[i] = (o, clock.now - t0)
+            done[i] = (o, ticks())
 
         t = 0
         tasks = []
-        for i, (g, _d, _o) in enumerate(calls):
+        for i, (g, _d, _o, mode) in enumerate(calls):
             t += g
-            loop.advance_to(t0 + t)
+            if mode == "b":
+                advance_before(loop, t0 + t * TICK)   # the caller runs before the timers of this instant
+            else:
+                loop.advance_to(t0 + t * TICK)        # ... after they fired and everything settled
             tasks.append(loop.create_task(caller(i)))
         loop.quiesce(advance=True)
 
@@ -161,7 +205,7 @@ def monitor(case: str, out: str) -> list[str]:
     p = parse(case)
     if p is None:
         return []
-    bare, limit, form, period, calls = p
+    bare, limit, _form, period, calls = p
     if limit < 1 or period < 1:
         return []  # outside the property (limit >= 1, period > 0)
     if out.startswith("HANG") or " order=" not in out:
@@ -173,7 +217,7 @@ def monitor(case: str, out: str) -> list[str]:
     if len(obs) != n:
         return ["throttle.no-observation:shape"]
     arrivals, t = [], 0
-    for g, _d, _o in calls:
+    for g, _d, _o, _m in calls:
         t += g
         arrivals.append(t)
     fails: list[str] = []
@@ -240,7 +284,7 @@ def _delays(case: str, out: str):
     if p is None or " order=" not in out:
         return []
     t, res = 0, []
-    for (g, _d, _o), tok in zip(p[4], out.split(" order=")[0].split()):
+    for (g, _d, _o, _m), tok in zip(p[4], out.split(" order=")[0].split()):
         t += g
         s = tok.split("/")[0]
         if s not in ("-", "IndexError"):
@@ -256,28 +300,46 @@ def classify(case: str, out: str):
     p = parse(case)
     if p is None:
         return
-    bare, limit, form, period, calls = p
+    bare, limit, (form, pargs), period, calls = p
     yield f"limit:{'bare' if bare else limit}"
     yield f"period-form:{form}"
-    yield f"period:{period}"
+    if form == "t" and (pargs[0] or pargs[2]):
+        yield "period:timedelta-with-days-or-subsecond"
+    if form == "f" and period % 4:
+        yield "period:fractional-float"
+    yield f"period-ticks:{period if period <= 12 else '13-99' if period < 100 else '100+'}"
     yield f"calls:{len(calls)}"
-    gaps = [g for g, _, _ in calls[1:]]
+    gaps = [c[0] for c in calls[1:]]
     if gaps and all(g == 0 for g in gaps):
         yield "pattern:burst"
     elif gaps and len(set(gaps)) == 1:
         yield "pattern:steady"
     if any(g in (period - 1, period, period + 1) for g in gaps):
         yield "pattern:gap-at-period-boundary"
-    if any(d > 0 for _, d, _ in calls):
+    if any(c[3] == "b" for c in calls):
+        yield "arrival:before-timers-of-its-instant"
+    if any(c[1] > 0 for c in calls):
         yield "fn:takes-time"
-    if any(o != "v" for _, _, o in calls):
+    if any(c[2] != "v" for c in calls):
         yield "fn:raises"
     d = _delays(case, out)
     yield f"delayed:{min(sum(1 for x in d if x > 0), 6)}"
+    # an arrival exactly at the instant an earlier, delayed call starts (its wait ends there)
+    t, arr = 0, []
+    for c in calls:
+        t += c[0]
+        arr.append(t)
+    if " order=" in out:
+        st = [tok.split("/")[0] for tok in out.split(" order=")[0].split()]
+        ends = {float(x) for x, a in zip(st, arr) if x not in ("-", "IndexError") and float(x) > a}
+        if any(a in ends and c[3] == "b" for a, c in zip(arr, calls)):
+            yield "tie:arrival-before-sleeper-wakes"
+        if any(a in ends and c[3] == "a" for a, c in zip(arr, calls)):
+            yield "tie:arrival-after-sleeper-woke"
 
 
 # ----------------------------------------------------------------------------------------------
-# cases
+# cases (all numbers in ticks of 0.25 s unless the period form says otherwise)
 
 def corpus():
     return [
@@ -286,13 +348,24 @@ def corpus():
         "1 f10 0:0:v 0:0:v 0:0:v",
         "2 f10 0:0:v 1:0:v 1:0:v 1:0:v",
         "1 t5 0:0:v 1:0:v",
+        # an arrival at exactly the instant a waiting call's delay ends, scheduled BEFORE that sleeper wakes (:b) and
+        # after it (:a) - a lock-free fast path lets the newcomer overtake and both start in one window
+        "1 f4 0:0:v 2:0:v 2:0:v:b",
+        "1 f4 0:0:v 2:0:v 2:0:v:a",
+        "1 i1 0:0:v 2:0:v 2:0:v:b 0:0:v:b 4:0:v:b",
+        "2 f4 0:0:v 0:0:v 1:0:v 3:0:v:b 0:0:v:b",
+        "2 t0,0,1500 0:0:v 0:0:v 2:0:v 1:0:v 3:0:v:b 6:0:v:b",
+        "3 f2 0:0:v 0:0:v 0:0:v 0:0:v 2:0:v:b 0:0:v:b 2:0:v:b",
+        "1 f3 0:5:e 1:0:v 2:0:b:b 3:0:v:b 3:0:v:a",
         # boundary: an entry exactly one period old is dropped (<=); a burst at the boundary is spread out
         "1 f10 0:0:v 10:0:v 0:0:v 0:0:v",
+        "1 f10 0:0:v 10:0:v:b 0:0:v:b 0:0:v:b",
         "1 f10 0:0:v 9:0:v 1:0:v",
+        "1 f10 0:0:v 9:0:v 1:0:v:b",
         "1 f10 0:0:v 11:0:v 0:0:v",
         "2 f5 0:0:v 0:0:v 5:0:v 0:0:v 0:0:v",
         "2 f5 0:0:v 0:0:v 4:0:v 1:0:v 0:0:v 0:0:v",
-        "3 i4 0:0:v 0:0:v 0:0:v 4:0:v 0:0:v 0:0:v 0:0:v 1:0:v",
+        "3 i1 0:0:v 0:0:v 0:0:v 4:0:v 0:0:v 0:0:v 0:0:v 1:0:v",
         # limit off by one
         "2 f10 0:0:v 0:0:v 0:0:v",
         "3 f10 0:0:v 0:0:v 0:0:v 0:0:v",
@@ -304,15 +377,28 @@ def corpus():
         "2 f6 0:0:v 2:0:v 2:0:v 2:0:v 2:0:v 2:0:v 2:0:v 2:0:v",
         "2 f6 0:0:v 3:0:v 3:0:v 3:0:v 3:0:v 3:0:v",
         "1 f2 0:0:v 3:0:v 3:0:v 3:0:v",
+        # period forms: timedelta with a sub-second part / whole days (total_seconds, not .seconds), fractional floats
+        "2 t0,0,1500 0:0:v 0:0:v 0:0:v 0:0:v 1:0:v 15:0:v",
+        "1 t0,0,500 0:0:v 0:0:v 1:0:v 1:0:v",
+        "1 t0,0,250 0:0:v 0:0:v 0:0:v",
+        "1 t0,1,750 0:0:v 6:0:v 1:0:v 0:0:v",
+        "1 t1,0,0 0:0:v 0:0:v 345599:0:v 1:0:v",
+        "2 t1,0,500 0:0:v 0:0:v 4:0:v 345598:0:v:b 0:0:v",
+        "3 t2,3,250 0:0:v 0:0:v 0:0:v 0:0:v 691213:0:v",
+        "1 t0,86399,750 0:0:v 345599:0:v",
+        "1 f1 0:0:v 0:0:v 1:0:v",
+        "2 f7 0:0:v 0:0:v 6:0:v 1:0:v 0:0:v",
+        "1 i2 0:0:v 7:0:v 1:0:v 0:0:v",
         # long-running / failing functions do not change the schedule; outcomes are the function's own
         "1 f4 0:9:e 0:0:b 0:5:v 0:0:e",
         "2 t3 0:7:v 0:0:e 0:7:b 1:0:v 0:2:e 5:0:v",
         "3 f5 0:1:e 0:1:e 0:1:e 0:1:e 6:0:v",
         # waiting queue longer than one period's worth, later idle gap, burst again
         "1 f2 0:0:v 0:0:v 0:0:v 0:0:v 0:0:v 0:0:v 20:0:v 0:0:v",
-        "2 i3 1:0:v 0:0:v 0:0:v 0:0:v 0:0:v 9:0:v 0:0:v 0:0:v",
-        # defaults
+        "2 i1 1:0:v 0:0:v 0:0:v 0:0:v 0:0:v 9:0:v 0:0:v 0:0:v",
+        # defaults (limit 1, period 1 s = 4 ticks)
         "- d 0:0:v 0:0:v 1:0:v",
+        "- d 0:0:v 2:0:v 2:0:v:b",
         "- d 2:0:e",
         "1 f1 0:0:v",
         "4 f1",
@@ -323,21 +409,41 @@ def corpus():
 
 DURS = [0, 0, 0, 1, 2]
 OUTS = ["v", "v", "v", "e", "b"]
+# (token, ticks)
+PERIODS = [("f1", 1), ("f2", 2), ("f3", 3), ("f3", 3), ("f4", 4), ("f5", 5), ("f6", 6), ("f7", 7), ("f10", 10), ("f20", 20),
+           ("i1", 4), ("i1", 4), ("i2", 8), ("i3", 12),
+           ("t1", 4), ("t2", 8), ("t0,0,250", 1), ("t0,0,500", 2), ("t0,0,750", 3), ("t0,0,1500", 6), ("t0,1,250", 5),
+           ("t0,2,500", 10), ("t1,0,0", 345600), ("t1,0,500", 345602), ("t2,1,250", 691205), ("t0,86399,750", 345599)]
 
 
-def _call(rng, gap: int, period: int) -> str:
+def _call(rng, gap: int, period: int, tie: float = 0.35) -> str:
     d = rng.choice(DURS + [period, 3 * period])
-    return f"{gap}:{d}:{rng.choice(OUTS)}"
+    mode = ":b" if rng.random() < tie else ""
+    return f"{gap}:{d}:{rng.choice(OUTS)}{mode}"
 
 
 def _random_case(rng) -> str:
     limit = rng.randint(1, 4)
-    period = rng.choice([1, 2, 3, 3, 4, 5, 5, 7, 10])
-    form = rng.choice("ffit")
+    ptok, period = rng.choice(PERIODS)
     n = rng.randint(1, 12)
     style = rng.random()
     gaps: list[int] = [rng.choice([0, 0, 1, 2, period])]
     boundary = [period - 1, period, period + 1]
+    if style >= 0.8:
+        # a burst that overfills the window, then arrivals at exactly the instants the delayed calls start
+        k = rng.randint(limit + 1, min(12, 2 * limit + 2))
+        gaps = [rng.choice([0, 1])] + [rng.choice([0, 0, 0, 1]) for _ in range(k - 1)]
+        sofar = sum(gaps)
+        first = gaps[0]
+        target = first + period          # the head expires here: the (limit+1)-th call of the burst starts then
+        while len(gaps) < n:
+            nxt = max(sofar, target)
+            gaps.append(nxt - sofar)
+            sofar = nxt
+            target = rng.choice([sofar, sofar, sofar + period, sofar + 1])
+        gaps = gaps[:n]
+        toks = [_call(rng, g, period, tie=0.6 if j >= k else 0.2) for j, g in enumerate(gaps)]
+        return " ".join([str(limit), ptok, *toks])
     while len(gaps) < n:
         if style < 0.2:      # bursts separated by boundary gaps
             k = rng.randint(1, limit + 2)
@@ -345,13 +451,17 @@ def _random_case(rng) -> str:
         elif style < 0.4:    # steady stream
             g = rng.choice([1, max(1, period // limit), max(1, period // limit) + 1, period - 1, period, period + 1, 2])
             gaps += [g] * rng.randint(2, 6)
-            style = rng.random()
+            style = rng.random() * 0.8
         elif style < 0.6:    # boundary gaps +-1 tick
             gaps.append(rng.choice(boundary + [0, 0]))
         else:                # mixture
-            gaps.append(rng.choice([0, 0, 0, 1, 1, 2, 3, period - 1, period, period + 1, 2 * period, rng.randint(0, 2 * period)]))
+            gaps.append(rng.choice([0, 0, 0, 1, 1, 2, 3, period - 1, period, period + 1, 2 * period,
+                                    rng.randint(0, 2 * min(period, 40))]))
     gaps = [max(0, g) for g in gaps[:n]]
-    return " ".join([str(limit), f"{form}{period}", *(_call(rng, g, period) for g in gaps)])
+    return " ".join([str(limit), ptok, *(_call(rng, g, period) for g in gaps)])
+
+
+GRID_FORMS = {2: ["f2", "t0,0,500", "f2"], 3: ["f3", "t0,0,750", "f3"]}
 
 
 def generate(rng, tier):
@@ -365,34 +475,39 @@ def generate(rng, tier):
             for n in range(1, 7):
                 for first in (0, 1):
                     for rest in itertools.product(range(0, period + 2), repeat=n - 1):
-                        form = "fit"[k % 3]
-                        k += 1
-                        toks = [f"{g}:{DURS[(k + j) % 5] if k % 4 == 0 else 0}:{OUTS[(k + 2 * j) % 5] if k % 3 == 0 else 'v'}"
-                                for j, g in enumerate((first, *rest))]
-                        yield " ".join([str(limit), f"{form}{period}", *toks])
+                        for tie in ("", ":b"):
+                            k += 1
+                            ptok = GRID_FORMS[period][k % 3]
+                            toks = [f"{g}:{DURS[(k + j) % 5] if k % 4 == 0 else 0}:"
+                                    f"{OUTS[(k + 2 * j) % 5] if k % 3 == 0 else 'v'}{tie if j else ''}"
+                                    for j, g in enumerate((first, *rest))]
+                            yield " ".join([str(limit), ptok, *toks])
     for _ in range(200000):
         yield _random_case(rng)
 
 
 def mutate(rng, case: str) -> str:
     toks = case.split()
-    if len(toks) < 2 or toks[0] == "-":
+    p = parse(case)
+    if p is None or len(toks) < 2 or toks[0] == "-":
         return _random_case(rng)
-    try:
-        period = int(toks[1][1:])
-    except ValueError:
-        return _random_case(rng)
+    period = p[3]
     r = rng.random()
     if r < 0.15:
         toks[0] = str(rng.randint(1, 4))
     elif r < 0.3:
-        toks[1] = rng.choice("fit") + str(rng.choice([1, 2, 3, 5, 10]))
-    elif r < 0.6 and len(toks) < 14:
+        toks[1] = rng.choice(PERIODS)[0]
+    elif r < 0.55 and len(toks) < 14:
         toks.insert(rng.randint(2, len(toks)), _call(rng, rng.choice([0, 0, 1, period - 1, period, period + 1]), period))
     elif len(toks) > 2:
         i = rng.randrange(2, len(toks))
-        g, d, o = toks[i].split(":")
-        toks[i] = f"{max(0, int(g) + rng.choice([-1, 1, -int(g), period]))}:{d}:{o}"
+        parts = toks[i].split(":")
+        if rng.random() < 0.3:
+            parts = parts[:3] + ([] if len(parts) == 4 and parts[3] == "b" else ["b"])
+        else:
+            g = int(parts[0])
+            parts[0] = str(max(0, g + rng.choice([-1, 1, -g, period])))
+        toks[i] = ":".join(parts)
     return " ".join(toks)
 
 
@@ -414,14 +529,16 @@ def shrink(case: str):
         yield join(calls[:i] + calls[i + 1:])
     for i, c in enumerate(calls):
         if c[1] != "0":
-            yield join(calls[:i] + [[c[0], "0", c[2]]] + calls[i + 1:])
+            yield join(calls[:i] + [[c[0], "0", *c[2:]]] + calls[i + 1:])
         if c[2] != "v":
-            yield join(calls[:i] + [[c[0], c[1], "v"]] + calls[i + 1:])
+            yield join(calls[:i] + [[c[0], c[1], "v", *c[3:]]] + calls[i + 1:])
+        if len(c) == 4:
+            yield join(calls[:i] + [c[:3]] + calls[i + 1:])
         if int(c[0]) > 0:
-            yield join(calls[:i] + [["0", c[1], c[2]]] + calls[i + 1:])
-            yield join(calls[:i] + [[str(int(c[0]) - 1), c[1], c[2]]] + calls[i + 1:])
+            yield join(calls[:i] + [["0", *c[1:]]] + calls[i + 1:])
+            yield join(calls[:i] + [[str(int(c[0]) - 1), *c[1:]]] + calls[i + 1:])
     if head[0] not in ("-", "0", "1"):
         yield " ".join([str(int(head[0]) - 1), head[1], *toks[2:]])
-    if head[0] != "-" and head[1][0] != "f":
-        yield " ".join([head[0], "f" + head[1][1:], *toks[2:]])
-
+    p = parse(case)
+    if p is not None and head[0] != "-" and p[2][0] != "f" and p[3] <= 40:
+        yield " ".join([head[0], f"f{p[3]}", *toks[2:]])
